@@ -598,6 +598,8 @@ func (gen *Generator) GenerateInclude(args []Sexp) error {
 
 	var err error
 	var exps []Sexp
+	// the form leaves exactly one value, that of the last file
+	nfiles := 0
 
 	var sourceItem func(item Sexp) error
 
@@ -624,9 +626,19 @@ func (gen *Generator) GenerateInclude(args []Sexp) error {
 				return err
 			}
 
+			if nfiles > 0 {
+				// drop the value of the previous file
+				gen.AddInstruction(PopInstr(0))
+			}
+			nfiles++
+			start := len(gen.instructions)
 			err = gen.GenerateBegin(exps)
 			if err != nil {
 				return err
+			}
+			if len(gen.instructions) == start {
+				// nothing to evaluate in this file: its value is nil
+				gen.AddInstruction(PushInstr{SexpNull})
 			}
 
 		default:
@@ -641,6 +653,9 @@ func (gen *Generator) GenerateInclude(args []Sexp) error {
 		if err != nil {
 			return err
 		}
+	}
+	if nfiles == 0 {
+		gen.AddInstruction(PushInstr{SexpNull})
 	}
 
 	return nil
